@@ -236,7 +236,15 @@ SCRIPTS = {"Latn": 4, "Thaa": 5, "Runr": 0}     # default-shaper scripts with LT
 
 
 def shape_line(chars, fonttok, d, script, flags, level, text, clusters=None, npre=0, aux=(0x25CC,)):
-    auxs = ",".join(chars.tok(c) for c in aux) or "-"
+    # the model's Unicode data come from the tokens: besides the text it needs U+25CC and the mirrored forms
+    # of the text's characters (rotate_chars asks for the vertical form of an already mirrored character)
+    extra = list(aux)
+    for c in text:
+        m = chars.p[c]["mir"]
+        if m and m not in text and m not in extra:
+            extra.append(m)
+    chars.load(extra)
+    auxs = ",".join(chars.tok(c) for c in extra if chars.p.get(c)) or "-"
     return (f"pl shape {fonttok} {d} {script} {SCRIPTS[script]} {flags} {level} {npre} "
             f"{text_token(chars, text, clusters)} {auxs}")
 
